@@ -35,7 +35,7 @@ def extra_phase(tier, seed, exes, oracle):
         "samples": [{"fragment": "coq/gen/IoTables3.v (tools/translate_c07_r3.py from integer/src/fmt/mod.rs, fmt/non_power_two.rs, "
                                  "fmt/digit_writer.rs, parse/*.rs, third_party/num_traits.rs, third_party/serde.rs)",
                      "status": IO_TABLES3_STATUS,
-                     "tied_by": "C07_fmt_tables, C07_trait_table, C07_inradix_case, C07_layout_literals, C07_debug, C07_third_party_routes" if word3 == "ok"
+                     "tied_by": "C07_fmt_tables, C07_trait_table, C07_inradix_case, C07_layout_literals, C07_debug, C07_third_party_routes, C07_digit_table" if word3 == "ok"
                                 else "correspondence run only (source not parsed; previous copy marked STALE)"},
                     {"fragment": "coq/gen/IoTables.v (tools/translate_c07.py from integer/src/radix.rs, parse/mod.rs, math.rs, "
                                  "fmt/non_power_two.rs, parse/non_power_two.rs, arch/generic/digits.rs)",
@@ -53,47 +53,63 @@ HARNESS_BIN = "c07"
 NCASES = {"quick": 7000, "thorough": 120000}
 CASE_TIMEOUT = {"quick": 30, "thorough": 120}
 
-LEVEL_TEXT = ("Machine-checked Coq theorems for all inputs (no size bound, every even word size holding radix 36, in particular 16/32/64): "
-              "the digit specification is the unique positional representation; the radix table (digits/range per word, estimate-then-"
-              "multiply) is the largest power fitting a word; the as-is models of the printers (per-word extraction, double-word split, "
-              "medium groups, divide-and-conquer with cached squared radix powers; power-of-two shift/mask and the word walk with digits "
-              "straddling two words) and of the parsers (per-word Horner, 256-group chunks, divide-and-conquer; power-of-two bit packing "
-              "across words; sign / 0b 0o 0x front ends) equal the specification, value and error kind; format_prepared equals "
-              "core::fmt's pad_integral for every flag combination, so the whole Display/Binary/Octal/LowerHex/UpperHex/in_radix text "
-              "equals fmt_spec ('-' + magnitude for negatives); every accepted text is in the grammar and means its positional value, "
-              "the rest is NoDigits/InvalidDigit; print-then-parse is the identity under any underscore/case/leading-zero decoration; "
-              "to/from_le_bytes, two's complement to/from_signed bytes and to/from_chunks models equal their specifications and are "
-              "mutually inverse on ALL integers. The models are tied to the Rust code by a correspondence run against the OCaml "
-              "extraction of the same definitions.")
+LEVEL_TEXT = ("Machine-checked Coq theorems for all inputs (no size bound; every even word size >= 8 bits that holds the radix, in "
+              "particular 16/32/64): the digit specification is the unique positional representation; the radix table is the largest "
+              "power fitting a word; the as-is models of the printers and parsers equal the specification (value and error kind) at "
+              "TWO levels: the value level (every dispatch, threshold and estimate-then-correct loop of fmt/*.rs, parse/*.rs) and the "
+              "word level, where nothing below the converters is left at its meaning on Z - fast_div_by_word_in_place groups, "
+              "mul_word_in_place_with_carry chunks, the double-word split, the [Word; CHUNK_LEN] bounds and assert_eq! of the "
+              "printer, and for the divide-and-conquer paths the as-is models of C01 (pow, sqr, mul) and C02 (div_rem) cited by "
+              "their theorems; DigitWriter (buffering, flush, SWAR digit->ASCII) prints the byte-wise map of the digits for every "
+              "chunk length and every partition into write calls; format_prepared equals core::fmt's pad_integral for every flag "
+              "combination; the trait table of fmt/mod.rs (radix / prefix / DigitCase for UBig and IBig), the in_radix digit-case "
+              "rule, digit_from_ascii_byte evaluated on all 256 bytes, the 0b/0o/0x table and the constants are REGENERATED from the "
+              "source on every run and the theorems are proved over the generated definitions; the Debug printer (head..tail digits, "
+              "digit count, bit length; one Knuth step on the normalised divisor) prints its specification; every accepted text is "
+              "in the grammar and means its positional value, the rest is NoDigits/InvalidDigit; print-then-parse is the identity "
+              "under any decoration; to/from little- and big-endian bytes (own models), two's complement signed bytes, to_chunks and "
+              "from_chunks (word loops shl_in_place + add_in_place with the allocation sizes of the code) equal their "
+              "specifications and are mutually inverse on ALL integers.")
 LEVEL_NOTE = ("Trusted: Coq kernel, extraction incl. FastZ.v directives, zarith, the Rust harness (it also lays the same digits out "
-              "with the real Formatter::pad_integral and with u128/i128 formatting). Word loops below the value level "
-              "(fast_div_by_word_in_place, mul_word_in_place_with_carry, div_rem of the D&C printer, SWAR digit->ASCII, the shift/add "
-              "word loops of chunks_to_words) are modelled by their meaning on Z; big-endian variants are the reversed little-endian "
-              "ones. Pre-repair models of F01-F03 are refuted on their witnesses (C07_F0x_refuted).")
-TECHNIQUE = "Coq proof (model = spec for all inputs) + extracted-spec correspondence run"
-RULE = ("cases = {format, parse, bytes, chunks} x all 35 radices (+2 invalid) x values/texts whose digit count sits at -1/0/+1 of: "
-        "digits_per_word, 2 words, the printer's medium/large switch (16 groups), every doubling of the cached radix powers, the "
-        "parser's 256-group chunk switch and its 2x/4x/8x divide-and-conquer splits; digit patterns {random, all r-1, 10..0, zero "
-        "groups}; 88 formatter flag combinations x widths around the natural width x fills; texts decorated with sign, radix "
-        "prefix, underscores (leading/trailing/doubled), either case, leading zeros; malformed stream (empty, sign only, double "
-        "sign, underscore only, bad prefix, digit >= radix, neighbours of the ASCII digit ranges, non-ASCII, one corrupted byte in "
-        "a long text); signed/unsigned bytes at every byte-boundary magnitude +-1 and arbitrary byte strings; chunk widths around "
-        "word multiples. Non-trivial = the oracle evaluated the Coq specification on it; distinct = distinct case texts.")
+              "with the real Formatter::pad_integral and with u128/i128 formatting). Still by contract / meaning: num-modular's "
+              "PreMulInv1by1 and Normalized2by1Divisor primitives inside the C07 word loops (exact division; C02 proves the "
+              "transcribed primitives), log_word_base of the Debug printer (C12's certificate is the hypothesis), comparisons of "
+              "big numbers (C05), the word loops of words_to_chunks (to_chunks is modelled per chunk on Z), shifts inside UBig::pow "
+              "(C09). num-traits Num::from_str_radix is tied by the regenerated route only (the feature is not compiled into the "
+              "harness); the serde string forms are exercised through serde_json. 64-bit words in the correspondence run. "
+              "Pre-repair models of F01-F03 are refuted on their witnesses (C07_F0x_refuted).")
+TECHNIQUE = "Coq proof (word-level and value-level as-is models = spec for all inputs; regenerated tables) + extracted-model correspondence run"
+RULE = ("cases = {format, debug, parse, bytes, chunks, serde} x all 35 radices (+2 invalid) x values/texts whose digit count sits at -1/0/+1 of: "
+        "digits_per_word, 2 words, the printer's medium/large switch (16 groups), every doubling of the cached radix powers incl. the "
+        "word-count shortcut of the squaring loop (2*len-1 words, as large as possible), the parser's 256-group chunk switch and its "
+        "2x/4x/8x divide-and-conquer splits; digit patterns {random, all r-1, 10..0, zero groups}; 88 formatter flag combinations x "
+        "widths around the natural width x fills; Debug at one word / double word / 2^128 +-1 / powers of ten / extreme heads and tails "
+        "with and without `#`, `+`, ignored width flags; texts decorated with sign, radix prefix, underscores, either case, leading "
+        "zeros; malformed stream (empty, sign only, double sign, underscore only, bad prefix, digit >= radix, one corrupted byte in a "
+        "long text) and a sweep of EVERY byte value 0..255 in a digit position of a short text, the bytes one bit away from digits / "
+        "letters also inside long multi-chunk texts (thorough: every byte in both); signed/unsigned bytes at every byte-boundary "
+        "magnitude +-1 and arbitrary byte strings; chunk widths around word multiples, chunks wider than the chunk width; serde_json "
+        "round trips and prefix-grammar texts. Non-trivial = the oracle evaluated the Coq specification on it; distinct = distinct case texts.")
 EXPLANATION = ("Theorems in coq/props/C07.v; every implementation answer is judged against the extracted specification "
-               "(digits_spec, pad_integral_spec, from_str_*_spec, le/be(_signed)_value, to/from_chunks_spec); the extracted as-is "
-               "models must give the same answers (model_fidelity).")
+               "(digits_spec, pad_integral_spec, debug_spec, from_str_*_spec, le/be(_signed)_value, to/from_chunks_spec); the extracted "
+               "as-is models - value level (fmt_asis, body_asis, byte/chunk models), through the regenerated trait tables "
+               "(fmt_tables_asis), word level (fmt_words_asis / body_words_asis over IoWords, IoDword, C01's and C02's models; "
+               "from_chunks_words_z), the DigitWriter model (dw_text) and debug_asis - must all give the same answers (model_fidelity).")
 TRUSTED_BASE = [
-    "Coq 8.16.1 kernel (coqc); vm_compute only for closed witnesses/examples (finding witnesses, non-vacuity instances)",
+    "Coq 8.16.1 kernel (coqc); vm_compute only for closed witnesses/examples and for the 256-entry byte table (finite domain, bound stated)",
     "extraction: ExtrOcamlBasic + ExtrOcamlZBigInt + coq/extract/FastZ.v (Z.lor/log2/pow/... -> zarith)",
-    "OCaml 4.13.1 + zarith 1.12, oracle/common.ml, oracle/driver_c07.ml; Rust harness harness/src/bin/c07.rs",
+    "OCaml 4.13.1 + zarith 1.12, oracle/common.ml, oracle/driver_c07.ml; Rust harness harness/src/bin/c07.rs; serde_json for the serde forms",
     "core::fmt (format_args!, Formatter flag accessors, pad_integral used as the reference layout), u128/i128 formatting",
-    "kernels below the value level (fast_div_by_word_in_place, mul_word_in_place_with_carry, num_modular fast division, "
-    "arch::digits SWAR conversion, shift/add word loops of the chunk code) enter by their meaning on Z, tied by the correspondence run",
+    "tools/translate_c07.py and tools/translate_c07_r3.py (regular-expression readers and a small expression interpreter for digit_from_ascii_byte): "
+    "an unreadable source falls back to the correspondence run alone (reported as `unparsed` in the evidence)",
+    "num-modular primitives inside the C07 word loops by their contract (exact division); log_word_base by C12's certificate; big comparisons by meaning",
 ]
 ASSUMPTIONS = [
     "UBig::from_words / as_words / IBig::from_parts / as_sign_words transport values faithfully (harness never uses the parser/printer to move values)",
     "texts are valid UTF-8 (the API takes &str); formatter widths stay below 65536 (Rust's limit)",
-    "64-bit words in the correspondence run (the models and theorems are parametric in the word size: any w > 0 with w mod 8 = 0 and 2^w > 36)",
+    "64-bit words in the correspondence run (the models and theorems are parametric in the word size: any even w >= 8 with w mod 8 = 0 for bytes)",
+    "Debug: the bit length of the number fits a machine word (Buffer::MAX_CAPACITY guarantees it)",
+    "word-level models are evaluated in the run for magnitudes up to 70000 bits / texts up to 23000 bytes (list-based kernels are slow); longer ones by the value-level models",
 ]
 
 LETTERS = "0123456789abcdefghijklmnopqrstuvwxyz"
@@ -247,8 +263,71 @@ FIXED_BAD = ["", "+", "-", "+-1", "-+1", "--1", "++1", "_", "__", "+_", "-_", "_
              "1_", "_1", "0_", "_0", "00", "000_", "-0", "+0", "-00", "0x0", "-0x0", "0b_1", "0b1_", "1__2", "ß", "1ß", "１"]
 
 
+def char_with_byte(rng, b):
+    """a (valid UTF-8) character whose encoding contains the byte b; None for the bytes UTF-8 never uses"""
+    if b < 0x80:
+        return chr(b)
+    if b < 0xC0:                               # continuation byte: second byte of a 2-byte character, or inside a longer one
+        k = rng.below(3)
+        if k == 0:
+            return chr(0x80 + (b - 0x80)) if b >= 0x80 else None          # C2 b / C3 b  (U+0080..U+00BF -> C2 xx)
+        if k == 1:
+            return chr(0x0100 + (b - 0x80))                               # C4 b
+        return chr(0x2000 + (b - 0x80))                                   # E2 80 b
+    if 0xC2 <= b <= 0xDF:
+        return chr(((b & 0x1F) << 6) | rng.below(64))
+    if 0xE0 <= b <= 0xEF:
+        lo = 0x800 if b == 0xE0 else (b & 0x0F) << 12
+        hi = 0xD7FF if b == 0xED else ((b & 0x0F) << 12) | 0xFFF
+        return chr(rng.range(lo, hi))
+    if 0xF0 <= b <= 0xF4:
+        lo = 0x10000 if b == 0xF0 else (b & 0x07) << 18
+        hi = 0x10FFFF if b == 0xF4 else ((b & 0x07) << 18) | 0x3FFFF
+        return chr(rng.range(lo, hi))
+    return None                                # C0, C1, F5..FF
+
+
+# bytes one bit away from a digit or a letter, the neighbours of the ranges, the separator and the signs
+NEAR_BYTES = sorted(set(list(range(0x10, 0x1A)) + [0x2F, 0x3A, 0x40, 0x5B, 0x5C, 0x5D, 0x5E, 0x5F, 0x60, 0x7B, 0x7C, 0x7D, 0x7E, 0x7F] +
+                        list(range(0x70, 0x7A)) + list(range(0x01, 0x10)) + list(range(0x1A, 0x20)) + list(range(0x20, 0x30)) +
+                        list(range(0xB0, 0xBA)) + list(range(0xC1, 0xDB)) + list(range(0xE1, 0xFB)) + [0x80, 0xA0, 0xBF, 0xC2, 0xE0, 0xF0, 0xF4]))
+
+
+def byte_case(rng, tier, b, long_text):
+    """the byte b in a digit position: of a one-word text (first / middle / last / alone), or inside a long text that goes
+    through the chunk / divide-and-conquer / bit-packing paths; every API; the specification decides what it means"""
+    ch = char_with_byte(rng, b)
+    if ch is None:
+        ch = chr(rng.choice([0x11, 0x5B, 0x7B, 0xB1]))
+    r = rng.choice([2, 8, 10, 10, 16, 36, 36, rng.range(2, 36)])
+    if long_text:
+        nd = digit_count_classes(rng, r, tier, rng.chance(1, 6))
+        body = list(decorate(rng, gen_digits(rng, r, nd), r))
+        pos = rng.choice([0, len(body) - 1, rng.below(len(body)), len(body) // 2, max(0, len(body) - dpw_of(r) - 1), min(len(body) - 1, dpw_of(r))])
+        body[pos] = ch
+        text = "".join(body)
+    else:
+        d = LETTERS[rng.below(r)]
+        text = rng.choice([ch, ch + d, d + ch, d + ch + d, ch + ch, d + d + ch + d, "0" + ch, ch + "_" + d, d + "_" + ch])
+    api = rng.choice(["ur", "ir", "ur", "ir", "up", "ip", "ud", "id"] + (["uf", "if", "us", "is"] if r == 10 else []))
+    return "parse %s %x %s" % (api, r, xs(rng.choice(["", "", "+", "-"]) + text))
+
+
+def byte_sweep(rng, tier):
+    """EVERY byte value 0..255 in a digit position of a short text; the bytes next to the digit / letter ranges (one bit
+    away from them) also inside long texts; in the thorough tier every byte in both"""
+    out = []
+    for b in range(256):
+        out.append(byte_case(rng, tier, b, False))
+        if tier == "thorough" or b in NEAR_BYTES:
+            out.append(byte_case(rng, tier, b, True))
+    return out
+
+
 def malformed_case(rng, tier):
     k = rng.below(10)
+    if rng.chance(1, 5):
+        return byte_case(rng, tier, rng.choice(NEAR_BYTES) if rng.chance(1, 2) else rng.below(256), rng.chance(1, 2))
     r = rng.choice([2, 3, 8, 9, 10, 10, 11, 16, 35, 36, rng.range(2, 36)])
     api = rng.choice(["ur", "ir", "ur", "ir", "up", "ip", "ud", "id"] + (["uf", "if", "us", "is"] if r == 10 else []))
     if k < 3:
@@ -402,6 +481,13 @@ def dc_value(rng, r, k):
         return top + rng.below(2)                      # the power itself
     if c == 2:
         return top * top + rng.below(2)                # the next power is cached: x = 1
+    if c == 3 or c == 4:
+        # exactly 2*len(top) - 1 words: the length shortcut of the squaring loop (`2 * prev.len() - 1 > number.len()`) does not
+        # fire, the square must be computed and compared; where top^2 has that many words too the value may lie on either side
+        nw = 2 * wlen64(top) - 1
+        hi = (1 << (64 * nw)) - 1
+        return rng.choice([hi, hi - big_below(rng, 1 << rng.range(1, 64 * nw - 1)), (1 << (64 * (nw - 1))) + big_below(rng, 1 << (64 * (nw - 1))),
+                           max(top * top - 1, 1 << (64 * (nw - 1))), min(hi, top * top + big_below(rng, top))])
     return dc_quot(rng, ps, k - 1) * top + dc_rem(rng, ps, k)
 
 
@@ -412,6 +498,12 @@ def fmt_dc_case(rng, tier, deep=False):
     else:
         k = rng.choice([0, 1, 1, 1, 2, 2, 2])
     v = dc_value(rng, r, k)
+    if not deep and rng.chance(1, 4):
+        # the length shortcut of the squaring loop: 2*len(P_k) - 1 words, as large as that allows (the quotient by P_k is then
+        # as far above P_k as it can be: one more squaring is needed, or the top chunk overflows its CHUNK_LEN groups)
+        top = dc_powers(r, k)[k]
+        nw = 2 * wlen64(top) - 1
+        v = (1 << (64 * nw)) - 1 - rng.choice([0, 1, big_below(rng, 1 << (64 * nw - 3))])
     if rng.chance(1, 3):
         v = -v
     kind = "disp" if r == 10 and rng.chance(1, 2) else "r%x" % r
@@ -572,7 +664,7 @@ def serde_case(rng, tier):
 
 
 def gen_cases(rng, tier, n):
-    out = []
+    out = byte_sweep(rng.fork("bytes") if hasattr(rng, "fork") else rng, tier)
     nhuge = 0
     max_huge = 200 if tier == "quick" else 3000
     while len(out) < n:
